@@ -1192,7 +1192,8 @@ func (eval Evaluator) MulThenAdd(op0 *rlwe.Ciphertext, op1 rlwe.Operand, opOut *
 			return fmt.Errorf("cannot MulThenAdd: %w", err)
 		}
 
-		opOut.Resize(op0.Degree(), opOut.Level())
+		// The accumulator keeps its degree if it is larger than the one of op0
+		opOut.Resize(utils.Max(op0.Degree(), opOut.Degree()), level)
 
 		ringQ := eval.parameters.RingQ().AtLevel(level)
 
@@ -1235,7 +1236,8 @@ func (eval Evaluator) MulThenAdd(op0 *rlwe.Ciphertext, op1 rlwe.Operand, opOut *
 			return fmt.Errorf("cannot MulThenAdd: %w", err)
 		}
 
-		opOut.Resize(op0.Degree(), opOut.Level())
+		// The accumulator keeps its degree if it is larger than the one of op0
+		opOut.Resize(utils.Max(op0.Degree(), opOut.Degree()), level)
 
 		// Instantiates new plaintext from buffer
 		pt, err := rlwe.NewPlaintextAtLevelFromPoly(level, eval.buffQ[0])
